@@ -1,6 +1,6 @@
 (* C14 — a clone is an equal and fully independent cache (abstract part; the shared-heap frame
    statement is Layer B, B/FrameB.v). *)
-Require Import LruV.T.TableA LruV.A.InvA.
+Require Import LruV.T.TableA LruV.A.InvA LruV.B.FrameB.
 
 Definition same_modulo_tokens (a b : entry) : Prop :=
   kid (ek a) = kid (ek b) /\ kheap (ek a) = kheap (ek b) /\ vtag (ev a) = vtag (ev b) /\ vheap (ev a) = vheap (ev b) /\ es a = es b.
@@ -40,6 +40,23 @@ Proof.
   - unfold kids in *. rewrite map_map. cbn. exact Hnd.
 Qed.
 
+(* independence in a SHARED heap (Layer B): the list surgery of an operation on one cache writes only nodes of
+   that cache (plus the bucket it inserts); hence any other cache whose nodes are disjoint — a clone and its
+   source — keeps its representation invariant and its abstract content whatever is done to the first. A clone
+   that kept a link into its source would break exactly the footprint statements. *)
+Theorem C14_footprint_touch : forall g a g', RI (gh g) (gseal g) (glist g) -> In a (glist g) -> b_touch g a = Some g' ->
+  forall b, ~ In b (gseal g :: glist g) -> gh g' b = gh g b.
+Proof. exact b_touch_frame. Qed.
+Theorem C14_footprint_remove : forall g a g', RI (gh g) (gseal g) (glist g) -> In a (glist g) -> b_remove g a = Some g' ->
+  forall b, ~ In b (gseal g :: glist g) -> gh g' b = gh g b.
+Proof. exact b_remove_frame. Qed.
+Theorem C14_footprint_insert : forall g a sz p g', RI (gh g) (gseal g) (glist g) -> ~ In a (gseal g :: glist g) -> b_insert_new g a sz p = Some g' ->
+  forall b, ~ In b (gseal g :: glist g) -> b <> a -> gh g' b = gh g b.
+Proof. exact b_insert_new_frame. Qed.
+Theorem C14_independent : forall h h' own seal2 l2, untouched_outside h h' own ->
+  (forall b, In b (seal2 :: l2) -> ~ In b own) -> RI h seal2 l2 -> RI h' seal2 l2 /\ absl h' l2 = absl h l2.
+Proof. exact other_cache_preserved. Qed.
+
 Example C14_example :
   let mk i := {| ek := {| kid := i; ktok := i; kheap := 0 |}; ev := {| vtok := 100 + i; vtag := i; vheap := i |}; es := 72 + i |} in
   let s := {| ents := [mk 1; mk 2]; cur := 147; maxs := 1000; tb := {| nb := 4; tombs := 0 |} |} in
@@ -49,3 +66,7 @@ Proof. cbv zeta. eexists _, _. split; vm_compute; reflexivity. Qed.
 Print Assumptions C14_equal.
 Print Assumptions C14_fresh.
 Print Assumptions C14_inv.
+Print Assumptions C14_footprint_touch.
+Print Assumptions C14_footprint_remove.
+Print Assumptions C14_footprint_insert.
+Print Assumptions C14_independent.
